@@ -141,6 +141,7 @@ def main():
     seq_checked = 0
     trunc2_checked = 0
     t2_cases = []
+    t2_info = []
     for i in range(nseq):
         desc = G.gen_dataset(rng, kinds=("seq", "seq", "base", "struct", "grid"))
         try:
@@ -191,6 +192,9 @@ def main():
         # the DAP2 decoder MODEL (Xdr.unpack, the subject of C09_dap2_truncation_safe) on sampled cuts of the same body
         try:
             decl2 = C5.c_decl(desc)
+            # the description must be what is served (a numpy-backed nested sequence can come out with coerced column types)
+            if C5.ref_dds(desc).split() != dds_txt.decode("ascii").split():
+                raise ValueError("served declaration differs from the description")
             C5.decoded_to_desc_val(desc, unpack_dap2_data(BytesReader(data), dds_to_dataset(dds_txt.decode("ascii"))), np)
             ks2 = set(rng.sample(range(len(data)), min(len(data), 12 if T == "quick" else 40)))
             ks2 |= {0, len(data) - 1, len(data) - 4, max(0, len(data) - 5)} & set(range(len(data)))
@@ -207,6 +211,7 @@ def main():
                 try:
                     impl = "None" if got is None else "(Some %s)" % C5.decoded_to_desc_val(desc, raw_got, np)[0]
                     t2_cases.append("(%s, %s, %s)" % (decl2, cB(data[:k]), impl))
+                    t2_info.append({"dds": dds_txt.decode("ascii"), "cut_at": k, "length": len(data), "implementation": impl[:300]})
                 except Exception:
                     pass
             if got is not None and got != full:
@@ -287,7 +292,8 @@ def main():
     if not direct:
         for name in mism:
             if mism[name]:
-                r.violation({"kind": "correspondence-broken", "function": name,
+                extra_info = t2_info[t2_cases.index(mism[name][0])] if name == "trunc2" else {}
+                r.violation({"kind": "correspondence-broken", "function": name, "input": extra_info,
                              "theorem": "correspondence of pydap with the Gallina model underlying props/C09.v (%s)" % name,
                              "case": mism[name][0][:3000], "n_mismatches": len(mism[name])}, found=False)
     r.assumptions = [
